@@ -388,7 +388,8 @@ def v_datetime(idate: int, ih: int, imi: int, isp: int, ioff: int, lower: int) -
     want = _dt.datetime(y, m, d, h, mi, sec or 0, _micro(fr), tzinfo=tz)
     tok = action("DATETIME", lex)
     got = tok.value.py_val
-    return (type(tok.value) is _ast.DateTime and tok.value.val == lex and type(got) is _dt.datetime
+    # the T / Z designators are case-insensitive: the node may keep or normalise their spelling (not part of the value)
+    return (type(tok.value) is _ast.DateTime and tok.value.val.upper() == lex.upper() and type(got) is _dt.datetime
             and got.replace(tzinfo=None) == want.replace(tzinfo=None) and got.utcoffset() == want.utcoffset())
 
 
